@@ -28,10 +28,59 @@ type Row struct {
 }
 
 type Cond struct {
-	Kind string `json:"kind"` // all | mod | gt | none | ormodgt
+	Kind string `json:"kind"` // all | mod | gt | none | ormodgt | seq
 	A    int64  `json:"a"`
 	B    int64  `json:"b"`
 	C    int64  `json:"c"`
+	// kind seq: Where(First) followed by Where / Or / Not calls
+	First *ACond    `json:"first,omitempty"`
+	Seq   []SeqCall `json:"seq,omitempty"`
+}
+
+// ACond is one raw condition of a seq chain.
+type ACond struct {
+	K string `json:"k"` // mod | gt | lt | vgt
+	A int64  `json:"a"`
+	B int64  `json:"b"`
+}
+type SeqCall struct {
+	Call string `json:"call"` // where | or | not
+	A    ACond  `json:"a"`
+}
+
+func (a ACond) sql() (string, []interface{}) {
+	switch a.K {
+	case "mod":
+		return "id % ? = ?", []interface{}{a.A, a.B}
+	case "gt":
+		return "id > ?", []interface{}{a.A}
+	case "lt":
+		return "id < ?", []interface{}{a.A}
+	}
+	return "v > ?", []interface{}{a.A}
+}
+func gACond(a ACond) string {
+	switch a.K {
+	case "mod":
+		return lib.App("AMod", lib.Z(a.A), lib.Z(a.B))
+	case "gt":
+		return lib.App("AGt", lib.Z(a.A))
+	case "lt":
+		return lib.App("ALt", lib.Z(a.A))
+	}
+	return lib.App("AVGt", lib.Z(a.A))
+}
+func genACond(r *lib.Rng) ACond {
+	switch r.Intn(4) {
+	case 0:
+		m := int64(r.Range(2, 3))
+		return ACond{K: "mod", A: m, B: int64(r.Intn(int(m)))}
+	case 1:
+		return ACond{K: "gt", A: int64(r.Range(0, 12))}
+	case 2:
+		return ACond{K: "lt", A: int64(r.Range(2, 14))}
+	}
+	return ACond{K: "vgt", A: int64(r.Range(0, 6))}
 }
 type Lop struct {
 	Kind string `json:"kind"` // limit | offset
@@ -86,6 +135,20 @@ func chain(db *gorm.DB, in Input) *gorm.DB {
 		tx = tx.Where("1 = 0")
 	case "ormodgt":
 		tx = tx.Where("id % ? = ?", in.Cond.A, in.Cond.B).Or("id > ?", in.Cond.C)
+	case "seq":
+		q, a := in.Cond.First.sql()
+		tx = tx.Where(q, a...)
+		for _, c := range in.Cond.Seq {
+			q, a := c.A.sql()
+			switch c.Call {
+			case "or":
+				tx = tx.Or(q, a...)
+			case "not":
+				tx = tx.Not(q, a...)
+			default:
+				tx = tx.Where(q, a...)
+			}
+		}
 	}
 	switch in.Ord {
 	case "id_asc":
@@ -324,6 +387,11 @@ func gCond(c Cond) string {
 		return "CNone"
 	case "ormodgt":
 		return lib.App("COrModGt", lib.Z(c.A), lib.Z(c.B), lib.Z(c.C))
+	case "seq":
+		return lib.App("CSeq", gACond(*c.First), lib.ListOf(c.Seq, func(s SeqCall) string {
+			k := map[string]string{"where": "KWhere", "or": "KOr", "not": "KNot"}[s.Call]
+			return lib.Pair(k, gACond(s.A))
+		}))
 	}
 	return "CAll"
 }
@@ -395,6 +463,15 @@ func genLops(r *lib.Rng, edge bool) []Lop {
 }
 
 func genCond(r *lib.Rng) Cond {
+	if r.Chance(1, 4) {
+		// Where(a).{Where|Or|Not}(b)...: 1..3 further calls, an Or in any position
+		f := genACond(r)
+		c := Cond{Kind: "seq", First: &f}
+		for i, n := 0, r.Range(1, 3); i < n; i++ {
+			c.Seq = append(c.Seq, SeqCall{Call: []string{"where", "or", "or", "not"}[r.Intn(4)], A: genACond(r)})
+		}
+		return c
+	}
 	if r.Chance(1, 5) {
 		m := int64(r.Range(2, 3))
 		return Cond{Kind: "ormodgt", A: m, B: int64(r.Intn(int(m))), C: int64(r.Range(2, 14))}
